@@ -657,3 +657,121 @@ B('g14k_header_coarser_via_constant', ['C14'], 'R14.k',
   (ST, _MT_OPEN, "        granularity = _HEADER_ROUNDING\n        mtime = get_file_mtime(path, granularity)\n        fsize = os.path.getsize(path)\n"))
 B('g14k_comparison_coarser', ['C14'], 'R14.k',
   (ST, _MT_COND, "            mtime = get_file_mtime(path, rounding=-1)\n        except (ValueError, IOError, OSError):  # TODO"))
+
+# ------------------------------------------------------------------ R14.l: the Content-Type is given, guessed, or a configured default chosen by peeking
+_CHOICE = ("        if peeked and is_binary:\n"
+           "            mimetype = default_binary_mime\n"
+           "        else:\n"
+           "            mimetype = default_text_mime\n")
+T('g14l_guess_by_basename_and_flag', ['C14'],
+  (ST, _GUESS, "    if not mimetype:\n        mimetype = mimetypes.guess_type(os.path.basename(path))[0]\n"),
+  (ST, "        is_binary = is_binary_string(peeked)\n" + _CHOICE,
+       "        looks_binary = bool(peeked) and is_binary_string(peeked)\n"
+       "        if looks_binary:\n"
+       "            mimetype = default_binary_mime\n"
+       "        else:\n"
+       "            mimetype = default_text_mime\n"))
+T('g14l_text_first', ['C14'],
+  (ST, _CHOICE,
+   "        mimetype = default_text_mime\n"
+   "        if peeked and is_binary:\n"
+   "            mimetype = default_binary_mime\n"))
+B('g14l_defaults_swapped', ['C14'], 'R14.l',
+  (ST, _CHOICE,
+   "        if peeked and is_binary:\n"
+   "            mimetype = default_text_mime\n"
+   "        else:\n"
+   "            mimetype = default_binary_mime\n"))
+B('g14l_test_inverted', ['C14'], 'R14.l',
+  (ST, _CHOICE,
+   "        if not peeked or is_binary:\n"
+   "            mimetype = default_text_mime\n"
+   "        else:\n"
+   "            mimetype = default_binary_mime\n"))
+B('g14l_constant_instead_of_default', ['C14'], 'R14.l',
+  (ST, _CHOICE,
+   "        if peeked and is_binary:\n"
+   "            mimetype = default_binary_mime\n"
+   "        else:\n"
+   "            mimetype = 'text/html'\n"))
+B('g14l_no_guess', ['C14'], 'R14.l', (ST, _GUESS, ""))
+B('g14l_binary_test_on_path', ['C14'], 'R14.l',
+  (ST, "        is_binary = is_binary_string(peeked)\n", "        is_binary = is_binary_string(path.encode('utf-8'))\n"))
+B('g14h_guess_for_other_name', ['C14'], 'R14.h',
+  (ST, _GUESS, "    if not mimetype:\n        mimetype, encoding = mimetypes.guess_type('index.html')\n"))
+
+# ------------------------------------------------------------------ R14.i: the order is followed through functions of the package and accumulators
+_APP_NORMALISE = "        if isinstance(search_paths, (str, bytes)):\n            search_paths = [search_paths]\n"
+T('g14i_checked_paths_keep_order', ['C14'],
+  (ST, _BFR_DEF,
+   "def absolute_search_paths(search_paths):\n"
+   "    checked = []\n"
+   "    for search_path in search_paths:\n"
+   "        abs_path = os.path.abspath(search_path)\n"
+   "        if abs_path not in checked:\n"
+   "            checked.append(abs_path)\n"
+   "    return checked\n\n\n" + _BFR_DEF),
+  (ST, _APP_NORMALISE, _APP_NORMALISE + "        search_paths = absolute_search_paths(search_paths)\n"))
+B('g14i_checked_paths_unique_via_set', ['C14'], 'R14.i',
+  (ST, _BFR_DEF,
+   "def absolute_search_paths(search_paths):\n"
+   "    return list(set(os.path.abspath(p) for p in search_paths))\n\n\n" + _BFR_DEF),
+  (ST, _APP_NORMALISE, _APP_NORMALISE + "        search_paths = absolute_search_paths(search_paths)\n"))
+B('g14i_checked_paths_sorted_in_place', ['C14'], 'R14.i',
+  (ST, _BFR_DEF,
+   "def absolute_search_paths(search_paths):\n"
+   "    checked = []\n"
+   "    for search_path in search_paths:\n"
+   "        checked.append(os.path.abspath(search_path))\n"
+   "    checked.sort()\n"
+   "    return checked\n\n\n" + _BFR_DEF),
+  (ST, _APP_NORMALISE, _APP_NORMALISE + "        search_paths = absolute_search_paths(search_paths)\n"))
+B('g14i_paths_collected_in_set_method', ['C14'], 'R14.i',
+  (ST, _APP_STORE,
+   "        seen = set()\n"
+   "        for search_path in search_paths:\n"
+   "            seen.add(search_path)\n"
+   "        self.search_paths = list(seen)\n"))
+
+# ------------------------------------------------------------------ R14.m: configuration reaches build_file_response unchanged
+T('g14m_positional_and_locals', ['C14'],
+  (ST, "        resp = bfr(self.file_path,\n                   cache_timeout=self.cache_timeout,\n                   cached_modify_time=request.if_modified_since,\n                   mimetype=self.mimetype,",
+       "        max_age = self.cache_timeout\n        resp = bfr(self.file_path, max_age, request.if_modified_since, self.mimetype,"))
+B('g14m_route_drops_cache_timeout', ['C14'], 'R14.m',
+  (ST, "        resp = bfr(self.file_path,\n                   cache_timeout=self.cache_timeout,\n", "        resp = bfr(self.file_path,\n"))
+B('g14m_defaults_swapped_in_call', ['C14'], 'R14.m',
+  (ST, "                   default_text_mime=self.default_text_mime,\n                   default_binary_mime=self.default_binary_mime,\n",
+       "                   default_text_mime=self.default_binary_mime,\n                   default_binary_mime=self.default_text_mime,\n"))
+B('g14m_defaults_swapped_in_init', ['C14'], 'R14.m',
+  (ST, "        self.default_text_mime = default_text_mime\n        self.default_binary_mime = default_binary_mime\n",
+       "        self.default_text_mime, self.default_binary_mime = default_binary_mime, default_text_mime\n"))
+B('g14m_caching_off_by_default', ['C14'], 'R14.m', (ST, "DEFAULT_MAX_AGE = 360\n", "DEFAULT_MAX_AGE = 0\n"))
+B('g14m_caching_off_by_default_param', ['C14'], 'R14.m',
+  (ST, "                 check_paths=True,\n                 cache_timeout=DEFAULT_MAX_AGE,\n", "                 check_paths=True,\n                 cache_timeout=None,\n"))
+B('g14m_route_uses_unmodified_since', ['C14'], 'R14.m',
+  (ST, "                   cached_modify_time=request.if_modified_since,\n                   mimetype=self.mimetype,",
+       "                   cached_modify_time=request.if_unmodified_since,\n                   mimetype=self.mimetype,"))
+B('g14m_timeout_clamped_in_init', ['C14'], 'R14.m',
+  (ST, "        self.cache_timeout = cache_timeout\n        self.mimetype = mimetype\n",
+       "        self.cache_timeout = cache_timeout if check_file else 0\n        self.mimetype = mimetype\n"))
+
+# ------------------------------------------------------------------ R14.n: peeking leaves the handle where it was
+_PEEK_TAIL = "    cur_pos = file_obj.tell()\n    peek_data = file_obj.read(size)\n    file_obj.seek(cur_pos)\n    return peek_data\n"
+T('g14n_restore_in_finally', ['C14'],
+  (ST, _PEEK_TAIL,
+   "    start = file_obj.tell()\n"
+   "    try:\n"
+   "        return file_obj.read(size)\n"
+   "    finally:\n"
+   "        file_obj.seek(start)\n"))
+B('g14n_no_seek_back', ['C14'], 'R14.n', (ST, _PEEK_TAIL, "    peek_data = file_obj.read(size)\n    return peek_data\n"))
+B('g14n_seek_back_only_when_data', ['C14'], 'R14.n',
+  (ST, _PEEK_TAIL,
+   "    cur_pos = file_obj.tell()\n    peek_data = file_obj.read(size)\n    if not peek_data:\n        return peek_data\n    if len(peek_data) < size:\n        return peek_data\n"
+   "    file_obj.seek(cur_pos)\n    return peek_data\n"))
+B('g14n_position_noted_after_read', ['C14'], 'R14.n',
+  (ST, _PEEK_TAIL, "    peek_data = file_obj.read(size)\n    cur_pos = file_obj.tell()\n    file_obj.seek(cur_pos)\n    return peek_data\n"))
+B('g14n_relative_seek', ['C14'], 'R14.n',
+  (ST, _PEEK_TAIL, "    cur_pos = file_obj.tell()\n    peek_data = file_obj.read(size)\n    file_obj.seek(cur_pos, 1)\n    return peek_data\n"))
+B('g14n_caller_reads_header', ['C14'], 'R14.n',
+  (ST, "    resp.response = file_wrapper(file_obj)\n", "    signature = file_obj.read(4)\n    resp.response = file_wrapper(file_obj)\n"))
